@@ -40,6 +40,9 @@ type Run struct {
 func (f *Run) Call(s *slip.Scope, args slip.List, depth int) (result slip.Object) {
 	slip.CheckArgCount(s, depth, f, args, 1, 1)
 	if args[0] != nil {
+		// The form is evaluated in the scope of the caller which from now on
+		// is used by more than one thread.
+		s.Share()
 		go func() { _ = args[0].Eval(s, depth) }()
 	}
 	return slip.Novalue
